@@ -15,6 +15,7 @@ import (
 	"strings"
 	"time"
 
+	"github.com/pelletier/go-toml/v2"
 	"gopkg.in/yaml.v3"
 
 	"github.com/honeycombio/refinery/config"
@@ -27,14 +28,29 @@ import (
 
 type c38Setting struct {
 	V1Key string `json:"k"` // v1 location: "Name" or "Group.Name"
-	Val   string `json:"v"` // text written into the v1 TOML (already quoted/typed per Typ)
+	Val   string `json:"v"` // TOML literal written into the v1 file
+	Class string `json:"c,omitempty"` // D = the documented default, Z = zero value, N = non-default non-zero
+}
+type c38Cond struct {
+	Field string `json:"f"`
+	Op    string `json:"o"`
+	Value string `json:"v,omitempty"` // TOML literal; empty for exists / not-exists
+}
+type c38Rule struct {
+	Name       string    `json:"name"`
+	SampleRate int64     `json:"rate,omitempty"`
+	Drop       bool      `json:"drop,omitempty"`
+	Conds      []c38Cond `json:"conds,omitempty"`
+	Sub        string    `json:"sub,omitempty"` // nested sampler type ("" = none)
+	SubRate    int64     `json:"subrate,omitempty"`
 }
 type c38Sampler struct {
-	Name     string            `json:"name"`              // "" = default section
-	Type     string            `json:"type,omitempty"`    // "" = no Sampler key in the section
-	Params   map[string]int64  `json:"params,omitempty"`  // v1 parameter names (canonical case), integer valued
-	Fields   []string          `json:"fields,omitempty"`  // FieldList
-	KeyCase  int               `json:"case,omitempty"`    // 0 as documented, 1 lower, 2 upper
+	Name    string           `json:"name"`             // "" = default section
+	Type    string           `json:"type,omitempty"`   // "" = no Sampler key in the section
+	Params  map[string]int64 `json:"params,omitempty"` // v1 parameter names (canonical case), integer valued
+	Fields  []string         `json:"fields,omitempty"` // FieldList
+	KeyCase int              `json:"case,omitempty"`   // 0 as documented, 1 lower, 2 upper
+	Rules   []c38Rule        `json:"rules,omitempty"`  // RulesBasedSampler
 }
 type c38Input struct {
 	Settings []c38Setting `json:"settings"`
@@ -42,14 +58,54 @@ type c38Input struct {
 }
 
 type c38Field struct {
-	v1key, v2path, typ string
+	v1key, v2path, typ, vtype string
+	mdef                      string // documented default, printed as the converter compares it
+	hasDef                    bool
+	choices                   []string
+	min, max                  float64 // canonical units (ns, bytes, plain)
+	hasMin, hasMax, zeroOK    bool
+	elem                      string
+	valueMap                  map[string]string // curated rows only: v1 value -> v2 value
+	curated                   bool
+}
+type c38Default struct {
+	canon string
+	ptr   bool
+	isInt bool // the Go field is an integer although the metadata may call the setting a float
 }
 
 var c38Fields []c38Field
+var c38Defaults = map[string]c38Default{}
 var c38Convert string
 
 func init() {
 	Register(&Driver{ID: "C38", Gen: c38Gen, Run: c38Run, Shrink: c38Shrink})
+}
+
+func c38ParseBound(typ string, arg any) (float64, bool) {
+	switch x := arg.(type) {
+	case int:
+		return float64(x), true
+	case float64:
+		return x, true
+	case string:
+		t := strings.ReplaceAll(x, "_", "")
+		if typ == "duration" {
+			if d, err := time.ParseDuration(t); err == nil {
+				return float64(d), true
+			}
+		}
+		if typ == "memorysize" {
+			var m config.MemorySize
+			if m.UnmarshalText([]byte(t)) == nil {
+				return float64(m), true
+			}
+		}
+		if f, err := strconv.ParseFloat(t, 64); err == nil {
+			return f, true
+		}
+	}
+	return 0, false
 }
 
 func c38Init() error {
@@ -116,34 +172,107 @@ func c38Init() error {
 				}
 				f.V1Name = f.Name
 			}
-			// "valid v1 file": free-text values are only generated for settings without a format / choice constraint
-			if f.ValueType == "conditional" || f.ValueType == "assigndefault" {
-				continue // derived from other v1 settings / fixed by the converter, not read from the v1 file
+			if f.ValueType == "conditional" || f.ValueType == "assigndefault" || f.ValueType == "map" {
+				continue // derived from other v1 settings / fixed by the converter / v2-only maps
 			}
 			if g.Name+"."+f.Name == "Collection.MaxMemoryPercentage" {
 				continue // introduced together with AvailableMemory in v2; the metadata carries no firstversion for it
-			}
-			constrained := len(f.Choices) > 0 || f.ValueType == "choice"
-			for _, v := range f.Validations {
-				if v.Type == "format" || v.Type == "choice" || v.Type == "requiredWith" || v.Type == "requiredInGroup" {
-					constrained = true
-				}
-			}
-			if constrained && f.Type == "string" {
-				continue
 			}
 			k := f.V1Name
 			if f.V1Group != "" {
 				k = strings.Split(f.V1Group, "/")[0] + "." + f.V1Name
 			}
-			c38Fields = append(c38Fields, c38Field{v1key: k, v2path: g.Name + "." + f.Name, typ: f.Type})
+			cf := c38Field{v1key: k, v2path: g.Name + "." + f.Name, typ: f.Type, vtype: f.ValueType, choices: f.Choices, zeroOK: true}
+			if f.Default != nil {
+				cf.mdef, cf.hasDef = fmt.Sprint(f.Default), true
+			}
+			constrained := false
+			for _, v := range f.Validations {
+				switch v.Type {
+				case "minimum":
+					if b, ok := c38ParseBound(f.Type, v.Arg); ok {
+						cf.min, cf.hasMin = b, true
+						if b > 0 {
+							cf.zeroOK = false
+						}
+					}
+				case "maximum":
+					if b, ok := c38ParseBound(f.Type, v.Arg); ok {
+						cf.max, cf.hasMax = b, true
+					}
+				case "minOrZero":
+					if b, ok := c38ParseBound(f.Type, v.Arg); ok {
+						cf.min, cf.hasMin = b, true
+					}
+				case "notempty", "required":
+					cf.zeroOK = false
+				case "elementType":
+					cf.elem = fmt.Sprint(v.Arg)
+				case "format", "requiredWith", "requiredInGroup", "conflictsWith":
+					constrained = true
+				}
+			}
+			// "valid v1 file": free text only where no format / cross-field constraint applies
+			if constrained && (f.Type == "string" && len(f.Choices) == 0) {
+				continue
+			}
+			if constrained {
+				cf.zeroOK = false
+			}
+			c38Fields = append(c38Fields, cf)
+		}
+	}
+	// genuine v1 settings that the metadata may not (or not fully) map: kept here independently of the metadata
+	c38Fields = append(c38Fields,
+		c38Field{v1key: "LoggingLevel", v2path: "Logger.Level", typ: "string", vtype: "choice", mdef: "warn", hasDef: true,
+			choices: []string{"debug", "info", "warn", "error"}, curated: true},
+		c38Field{v1key: "Logger", v2path: "Logger.Type", typ: "string", vtype: "v1logger", mdef: "", choices: []string{"logrus", "honeycomb"},
+			valueMap: map[string]string{"logrus": "stdout", "honeycomb": "honeycomb"}, curated: true})
+	// a curated row yields to a metadata row with the same v1 key (the metadata maps it now); a metadata row that
+	// only exists through the same-name heuristic yields to a curated row for the same v2 setting (v1 had no
+	// top-level "Type": the v1 name of Logger.Type is "Logger")
+	metaKeys, curatedPaths := map[string]bool{}, map[string]bool{}
+	for _, f := range c38Fields {
+		if !f.curated {
+			metaKeys[f.v1key] = true
+		}
+	}
+	for _, f := range c38Fields {
+		if f.curated && !metaKeys[f.v1key] {
+			curatedPaths[f.v2path] = true
+		}
+	}
+	var kept []c38Field
+	for _, f := range c38Fields {
+		if f.curated && metaKeys[f.v1key] {
+			continue
+		}
+		if !f.curated && curatedPaths[f.v2path] && !strings.Contains(f.v1key, ".") && f.v1key == f.v2path[strings.Index(f.v2path, ".")+1:] {
+			continue
+		}
+		kept = append(kept, f)
+	}
+	c38Fields = kept
+
+	// what the v2 loader uses when a setting is not named, and whether the struct can hold an explicit zero
+	dir, err := os.MkdirTemp(".", "c38init-")
+	if err != nil {
+		return err
+	}
+	defer os.RemoveAll(dir)
+	os.WriteFile(filepath.Join(dir, "c.yaml"), []byte("General:\n  ConfigurationVersion: 2\n"), 0o644)
+	os.WriteFile(filepath.Join(dir, "r.yaml"), []byte("RulesVersion: 2\nSamplers:\n  __default__:\n    DeterministicSampler:\n      SampleRate: 1\n"), 0o644)
+	dc, err := config.NewConfig(&config.CmdEnv{ConfigLocations: []string{filepath.Join(dir, "c.yaml")}, RulesLocations: []string{filepath.Join(dir, "r.yaml")}})
+	if dc == nil {
+		return fmt.Errorf("C38: minimal v2 config rejected: %v", err)
+	}
+	for _, f := range c38Fields {
+		if v, ok := c38Lookup(dc, f.v2path); ok {
+			c38Defaults[f.v2path] = c38Default{canon: c38CanonV2(v), ptr: v.Kind() == reflect.Ptr, isInt: v.Kind() >= reflect.Int && v.Kind() <= reflect.Uint64}
 		}
 	}
 	// build the converter of the repository under test (cached by source content)
-	repo := os.Getenv("VERIF_REPO")
-	if repo == "" {
-		repo = "/repo"
-	}
+	repo := repoDir
 	h := sha1.New()
 	for _, pat := range []string{"tools/convert/*.go", "tools/convert/templates/*", "config/metadata/*.yaml", "config/*.go"} {
 		files, _ := filepath.Glob(filepath.Join(repo, pat))
@@ -181,45 +310,153 @@ func c38Init() error {
 	return nil
 }
 
-// value text for the v1 TOML by metadata type; ok=false: type not generated
-func c38GenValue(r *rand.Rand, f c38Field) (string, bool) {
+func c38Clamp(f c38Field, v float64) float64 {
+	if f.hasMax && v > f.max {
+		v = f.max
+	}
+	if f.hasMin && v < f.min {
+		v = f.min
+	}
+	return v
+}
+
+// TOML literal for a setting: class D = documented default, Z = zero value, N = non-default non-zero
+func c38GenValue(r *rand.Rand, f c38Field, class string) (string, bool) {
+	if class == "Z" && !f.zeroOK {
+		class = "N"
+	}
+	if class == "D" && !f.hasDef {
+		class = "N"
+	}
+	q := func(s string) string { return fmt.Sprintf("%q", s) }
+	if f.vtype == "v1logger" {
+		return q(f.choices[r.Intn(len(f.choices))]), true
+	}
+	if len(f.choices) > 0 {
+		if class == "D" {
+			return q(f.mdef), true
+		}
+		return q(f.choices[r.Intn(len(f.choices))]), true
+	}
 	switch f.typ {
-	case "hostport":
-		return fmt.Sprintf("%q", fmt.Sprintf("0.0.0.0:%d", 7000+r.Intn(900))), true
-	case "url":
-		return fmt.Sprintf("%q", fmt.Sprintf("https://h%d.example.com", r.Intn(90))), true
-	case "int":
-		return strconv.Itoa(1100 + r.Intn(800)), true
-	case "bool":
+	case "bool", "defaulttrue":
+		switch class {
+		case "Z":
+			return "false", true
+		case "D":
+			return f.mdef, f.mdef == "true" || f.mdef == "false"
+		}
 		return []string{"true", "false"}[r.Intn(2)], true
+	case "int", "percentage":
+		switch class {
+		case "Z":
+			return "0", true
+		case "D":
+			if _, err := strconv.Atoi(f.mdef); err == nil {
+				return f.mdef, true
+			}
+		}
+		v := 1100 + float64(r.Intn(800))
+		if f.typ == "percentage" {
+			v = float64(11 + r.Intn(80))
+		}
+		return strconv.Itoa(int(c38Clamp(f, v))), true
+	case "float":
+		switch class {
+		case "Z":
+			return "0.0", true
+		case "D":
+			if x, err := strconv.ParseFloat(f.mdef, 64); err == nil {
+				return strconv.FormatFloat(x, 'f', 1, 64), true
+			}
+		}
+		frac := 0.5
+		if c38Defaults[f.v2path].isInt {
+			frac = 0 // v1 and v2 hold an integer here
+		}
+		return strconv.FormatFloat(c38Clamp(f, float64(2+r.Intn(40))+frac), 'f', 1, 64), true
 	case "duration":
-		return fmt.Sprintf("%q", fmt.Sprintf("%dm", 16+r.Intn(30))), true
+		if f.vtype == "secondstoduration" {
+			if class == "Z" {
+				return "0", true
+			}
+			return strconv.Itoa(20 + r.Intn(100)), true
+		}
+		switch class {
+		case "Z":
+			return q("0s"), true
+		case "D":
+			if _, err := time.ParseDuration(f.mdef); err == nil {
+				return q(f.mdef), true
+			}
+		}
+		d := time.Duration(c38Clamp(f, float64(time.Duration(16+r.Intn(30))*time.Minute)))
+		return q(d.String()), true
+	case "memorysize":
+		if class == "Z" {
+			return "0", true
+		}
+		return strconv.Itoa(int(c38Clamp(f, float64((50+r.Intn(50))*1_000_000)))), true
+	case "hostport":
+		switch class {
+		case "Z":
+			return q(""), true
+		case "D":
+			return q(f.mdef), true
+		}
+		return q(fmt.Sprintf("0.0.0.0:%d", 7000+r.Intn(900))), true
+	case "url":
+		switch class {
+		case "Z": // a blank URL is not a valid value
+			return q(fmt.Sprintf("https://h%d.example.com", r.Intn(90))), true
+		case "D":
+			return q(f.mdef), true
+		}
+		return q(fmt.Sprintf("https://h%d.example.com", r.Intn(90))), true
 	case "string":
-		return fmt.Sprintf("%q", fmt.Sprintf("val%d", r.Intn(90))), true
+		switch class {
+		case "Z":
+			return q(""), true
+		case "D":
+			return q(f.mdef), true
+		}
+		return q(fmt.Sprintf("val%d", r.Intn(90))), true
+	case "stringarray":
+		if class == "Z" {
+			return "[]", true
+		}
+		n := 1 + r.Intn(3)
+		var es []string
+		for i := 0; i < n; i++ {
+			switch f.elem {
+			case "hostport":
+				es = append(es, q(fmt.Sprintf("host%d:%d", r.Intn(9), 6000+i)))
+			case "url":
+				es = append(es, q(fmt.Sprintf("http://peer%d.example.com:8081", r.Intn(9))))
+			default:
+				es = append(es, q(fmt.Sprintf("item%d", r.Intn(90))))
+			}
+		}
+		return "[" + strings.Join(es, ", ") + "]", true
 	}
 	return "", false
 }
-
-// settings whose v1 -> v2 relation is not "same value" (documented transforms), kept out of the generator
-var c38Skip = map[string]string{}
 
 func c38Gen(r *rand.Rand, tier string, i int) any {
 	if err := c38Init(); err != nil {
 		panic(err)
 	}
 	in := c38Input{}
-	n := 3 + r.Intn(8)
+	n := 4 + r.Intn(9)
 	perm := r.Perm(len(c38Fields))
 	for _, pi := range perm {
 		if len(in.Settings) >= n {
 			break
 		}
 		f := c38Fields[pi]
-		if _, skip := c38Skip[f.v1key]; skip {
-			continue
-		}
-		if v, ok := c38GenValue(r, f); ok {
-			in.Settings = append(in.Settings, c38Setting{V1Key: f.v1key, Val: v})
+		class := []string{"D", "Z", "Z", "N", "N"}[r.Intn(5)]
+		if v, ok := c38GenValue(r, f, class); ok {
+			in.Settings = append(in.Settings, c38Setting{V1Key: f.v1key, Val: v, Class: class})
 		}
 	}
 	if r.Intn(10) < 7 { // nearly every v1 file has it; deprecated in v2
@@ -234,6 +471,7 @@ func c38Gen(r *rand.Rand, tier string, i int) any {
 			s.Type = "" // a section with only a SampleRate
 			s.Params = map[string]int64{"SampleRate": int64(2 + r.Intn(50))}
 			s.Fields = nil
+			s.Rules = nil
 		}
 		in.Samplers = append(in.Samplers, s)
 	}
@@ -249,7 +487,7 @@ func c38GenSampler(r *rand.Rand, name string) c38Sampler {
 		}
 		return l
 	}
-	switch r.Intn(4) {
+	switch r.Intn(5) {
 	case 0:
 		s.Type = "DeterministicSampler"
 		s.Params["SampleRate"] = int64(1 + r.Intn(100))
@@ -270,13 +508,47 @@ func c38GenSampler(r *rand.Rand, name string) c38Sampler {
 			s.Params["BurstDetectionDelay"] = int64(2 + r.Intn(8))
 		}
 		s.Fields = fields()
-	default:
+	case 3:
 		s.Type = "TotalThroughputSampler"
 		s.Params["GoalThroughputPerSec"] = int64(10 + r.Intn(500))
 		if r.Intn(2) == 0 {
 			s.Params["ClearFrequencySec"] = int64(10 + r.Intn(100))
 		}
 		s.Fields = fields()
+	default:
+		s.Type = "RulesBasedSampler"
+		s.KeyCase = 0 // rule trees are written with the documented key spelling
+		n := 1 + r.Intn(4)
+		for i := 0; i < n; i++ {
+			ru := c38Rule{Name: fmt.Sprintf("rule %d-%d", i, r.Intn(90))}
+			switch r.Intn(4) {
+			case 0:
+				ru.Drop = true
+			case 1:
+				ru.Sub = []string{"EMADynamicSampler", "DynamicSampler", "TotalThroughputSampler"}[r.Intn(3)]
+				ru.SubRate = int64(2 + r.Intn(50))
+			default:
+				ru.SampleRate = int64(1 + r.Intn(200))
+			}
+			nc := r.Intn(3)
+			for j := 0; j < nc; j++ {
+				c := c38Cond{Field: []string{"status_code", "http.method", "duration_ms", "error"}[r.Intn(4)]}
+				switch r.Intn(5) {
+				case 0:
+					c.Op, c.Value = "=", fmt.Sprintf("%d", 200+r.Intn(400))
+				case 1:
+					c.Op, c.Value = ">=", fmt.Sprintf("%d", r.Intn(1000))
+				case 2:
+					c.Op, c.Value = "!=", fmt.Sprintf("%q", []string{"GET", "POST", "x y"}[r.Intn(3)])
+				case 3:
+					c.Op, c.Value = "contains", fmt.Sprintf("%q", []string{"err", "time out"}[r.Intn(2)])
+				default:
+					c.Op = []string{"exists", "not-exists"}[r.Intn(2)]
+				}
+				ru.Conds = append(ru.Conds, c)
+			}
+			s.Rules = append(s.Rules, ru)
+		}
 	}
 	return s
 }
@@ -294,10 +566,10 @@ func c38Key(k string, mode int) string {
 func c38RulesTOML(ss []c38Sampler) string {
 	var b strings.Builder
 	for _, s := range ss {
-		ind := ""
+		ind, pre := "", ""
 		if s.Name != "" {
 			fmt.Fprintf(&b, "\n[%s]\n", s.Name)
-			ind = "  "
+			ind, pre = "  ", s.Name+"."
 		}
 		if s.Type != "" {
 			fmt.Fprintf(&b, "%s%s = %q\n", ind, c38Key("Sampler", s.KeyCase), s.Type)
@@ -316,6 +588,31 @@ func c38RulesTOML(ss []c38Sampler) string {
 				q[i] = fmt.Sprintf("%q", f)
 			}
 			fmt.Fprintf(&b, "%s%s = [%s]\n", ind, c38Key("FieldList", s.KeyCase), strings.Join(q, ", "))
+		}
+		for _, ru := range s.Rules {
+			fmt.Fprintf(&b, "\n%s[[%srule]]\n%s  name = %q\n", ind, pre, ind, ru.Name)
+			if ru.Drop {
+				fmt.Fprintf(&b, "%s  drop = true\n", ind)
+			}
+			if ru.SampleRate != 0 {
+				fmt.Fprintf(&b, "%s  SampleRate = %d\n", ind, ru.SampleRate)
+			}
+			for _, c := range ru.Conds {
+				fmt.Fprintf(&b, "%s  [[%srule.condition]]\n%s    field = %q\n%s    operator = %q\n", ind, pre, ind, c.Field, ind, c.Op)
+				if c.Value != "" {
+					fmt.Fprintf(&b, "%s    value = %s\n", ind, c.Value)
+				}
+			}
+			if ru.Sub != "" {
+				rate := "GoalSampleRate"
+				switch ru.Sub {
+				case "DynamicSampler":
+					rate = "SampleRate"
+				case "TotalThroughputSampler":
+					rate = "GoalThroughputPerSec"
+				}
+				fmt.Fprintf(&b, "%s  [%srule.sampler.%s]\n%s    %s = %d\n%s    FieldList = [\"status_code\"]\n", ind, pre, ru.Sub, ind, rate, ru.SubRate, ind)
+			}
 		}
 	}
 	return b.String()
@@ -342,24 +639,63 @@ func c38ConfigTOML(ss []c38Setting) string {
 	return top.String() + groups.String()
 }
 
-// canonical text of a value: durations as nanoseconds, everything else as printed
-func c38CanonV1(typ, text string) string {
-	t := strings.Trim(text, `"`)
-	if typ == "duration" {
-		if d, err := time.ParseDuration(t); err == nil {
-			return strconv.FormatInt(int64(d), 10)
+func c38Float(x float64) string { return strconv.FormatFloat(x, 'g', -1, 64) }
+
+// the v1 value as the converter prints it for comparisons (fmt %v of the decoded TOML value) and its canonical
+// form (durations in ns, memory sizes in bytes, lists joined)
+func c38V1Forms(f c38Field, v any) (text, canon string) {
+	text = fmt.Sprint(v)
+	switch x := v.(type) {
+	case []any:
+		parts := make([]string, len(x))
+		for i, e := range x {
+			parts[i] = fmt.Sprint(e)
 		}
+		text = strings.Join(parts, "\x1f")
+		return text, text
+	case bool:
+		return text, strconv.FormatBool(x)
+	case int64:
+		switch {
+		case f.typ == "duration":
+			return text, strconv.FormatInt(x*int64(time.Second), 10)
+		case f.typ == "float":
+			return text, c38Float(float64(x))
+		}
+		return text, strconv.FormatInt(x, 10)
+	case float64:
+		return text, c38Float(x)
+	case string:
+		if f.typ == "duration" {
+			if d, err := time.ParseDuration(x); err == nil {
+				return text, strconv.FormatInt(int64(d), 10)
+			}
+		}
+		if f.valueMap != nil {
+			if m, ok := f.valueMap[x]; ok {
+				return text, m
+			}
+		}
+		return text, x
 	}
-	return t
+	return text, text
 }
 func c38CanonV2(v reflect.Value) string {
 	switch x := v.Interface().(type) {
 	case config.Duration:
 		return strconv.FormatInt(int64(x), 10)
+	case config.MemorySize:
+		return strconv.FormatUint(uint64(x), 10)
 	case *config.DefaultTrue:
 		return strconv.FormatBool(x.Get())
 	case []string:
 		return strings.Join(x, "\x1f")
+	case float64:
+		return c38Float(x)
+	case float32:
+		return c38Float(float64(x))
+	case config.Level:
+		return x.String()
 	}
 	return fmt.Sprint(v.Interface())
 }
@@ -387,6 +723,43 @@ func c38Lookup(c config.Config, path string) (reflect.Value, bool) {
 	return v, true
 }
 
+// canonical text of one rule as the v2 loader holds it / as the v1 file says it
+func c38RuleCanonV1(ru c38Rule) string {
+	var cs []string
+	for _, c := range ru.Conds {
+		cs = append(cs, c.Field+" "+c.Op+" "+strings.Trim(c.Value, `"`))
+	}
+	sub := ""
+	if ru.Sub != "" {
+		sub = fmt.Sprintf("%s:%d", ru.Sub, ru.SubRate)
+	}
+	return fmt.Sprintf("%s|rate=%d|drop=%v|%s|%s", ru.Name, ru.SampleRate, ru.Drop, strings.Join(cs, ";"), sub)
+}
+func c38RuleCanonV2(ru *config.RulesBasedSamplerRule) string {
+	var cs []string
+	for _, c := range ru.Conditions {
+		val := ""
+		if c.Value != nil {
+			val = fmt.Sprint(c.Value)
+		}
+		cs = append(cs, c.Field+" "+c.Operator+" "+val)
+	}
+	sub := ""
+	if ru.Sampler != nil {
+		switch {
+		case ru.Sampler.EMADynamicSampler != nil:
+			sub = fmt.Sprintf("EMADynamicSampler:%d", ru.Sampler.EMADynamicSampler.GoalSampleRate)
+		case ru.Sampler.DynamicSampler != nil:
+			sub = fmt.Sprintf("DynamicSampler:%d", ru.Sampler.DynamicSampler.SampleRate)
+		case ru.Sampler.TotalThroughputSampler != nil:
+			sub = fmt.Sprintf("TotalThroughputSampler:%d", ru.Sampler.TotalThroughputSampler.GoalThroughputPerSec)
+		default:
+			sub = "other"
+		}
+	}
+	return fmt.Sprintf("%s|rate=%d|drop=%v|%s|%s", ru.Name, ru.SampleRate, ru.Drop, strings.Join(cs, ";"), sub)
+}
+
 func c38Run(raw json.RawMessage) (Case, error) {
 	if err := c38Init(); err != nil {
 		return Case{}, err
@@ -401,8 +774,13 @@ func c38Run(raw json.RawMessage) (Case, error) {
 	}
 	defer os.RemoveAll(dir)
 	p := func(n string) string { return filepath.Join(dir, n) }
-	if err := os.WriteFile(p("v1.toml"), []byte(c38ConfigTOML(in.Settings)), 0o644); err != nil {
+	v1text := c38ConfigTOML(in.Settings)
+	if err := os.WriteFile(p("v1.toml"), []byte(v1text), 0o644); err != nil {
 		return Case{}, err
+	}
+	var v1data map[string]any
+	if err := toml.Unmarshal([]byte(v1text), &v1data); err != nil {
+		return Case{}, fmt.Errorf("C38: generated v1 file is not TOML: %v", err)
 	}
 	if err := os.WriteFile(p("rules1.toml"), []byte(c38RulesTOML(in.Samplers)), 0o644); err != nil {
 		return Case{}, err
@@ -427,19 +805,27 @@ func c38Run(raw json.RawMessage) (Case, error) {
 	} else {
 		loadErr = "converter failed: " + out1 + out2
 	}
-	typOf := map[string]c38Field{}
+	fieldOf := map[string]c38Field{}
 	for _, f := range c38Fields {
-		typOf[f.v1key] = f
+		fieldOf[f.v1key] = f
 	}
 	var setTerms, human []string
 	tags := map[string]bool{}
 	for _, s := range in.Settings {
-		f, known := typOf[s.V1Key]
+		f, known := fieldOf[s.V1Key]
 		if !known {
 			tags["deprecated-v1-setting-present"] = true
 			continue // a v1 setting that no longer exists in v2 (e.g. CacheCapacity)
 		}
-		want := c38CanonV1(f.typ, s.Val)
+		var v1val any
+		if g, n, ok := strings.Cut(s.V1Key, "."); ok {
+			if m, ok := v1data[g].(map[string]any); ok {
+				v1val = m[n]
+			}
+		} else {
+			v1val = v1data[s.V1Key]
+		}
+		text, want := c38V1Forms(f, v1val)
 		got := "<rejected>"
 		if accepted {
 			if v, ok := c38Lookup(cfg, f.v2path); ok {
@@ -448,9 +834,24 @@ func c38Run(raw json.RawMessage) (Case, error) {
 				got = "<no such v2 setting>"
 			}
 		}
-		setTerms = append(setTerms, fmt.Sprintf("(%s, %s, %s, %s)", cq.Str(s.V1Key), cq.Str(f.v2path), cq.Str(want), cq.Str(got)))
-		human = append(human, fmt.Sprintf("%s=%s -> %s=%s", s.V1Key, want, f.v2path, got))
+		d := c38Defaults[f.v2path]
+		mdef := f.mdef
+		if f.typ == "float" { // the converter compares printed forms: a float default prints as the TOML float does
+			if x, err := strconv.ParseFloat(f.mdef, 64); err == nil {
+				mdef = fmt.Sprint(x)
+			}
+		}
+		setTerms = append(setTerms, fmt.Sprintf("{| oc_v1key := %s; oc_v2path := %s; oc_vt := %s; oc_v1text := %s; oc_mdefault := %s; oc_choices := %s; oc_v1 := %s; oc_sdefault := %s; oc_ptr := %s; oc_obs := %s |}",
+			cq.Str(s.V1Key), cq.Str(f.v2path), cq.Str(f.vtype), cq.Str(text), cq.Str(mdef), cq.ListStr(f.choices), cq.Str(want), cq.Str(d.canon), cq.Bool(d.ptr), cq.Str(got)))
+		human = append(human, fmt.Sprintf("%s=%s [%s %s] -> %s=%s (v2 default %s)", s.V1Key, want, f.vtype, s.Class, f.v2path, got, d.canon))
 		tags["type:"+f.typ] = true
+		tags["valuetype:"+f.vtype] = true
+		if want == "" || want == "0" || want == "false" {
+			tags["explicit-zero-or-false"] = true
+			if want != d.canon {
+				tags["explicit-zero-differs-from-v2-default"] = true
+			}
+		}
 	}
 	// samplers
 	var sampTerms []string
@@ -468,32 +869,42 @@ func c38Run(raw json.RawMessage) (Case, error) {
 		for _, k := range keys {
 			ps = append(ps, cq.Pair(cq.Str(k), cq.Z(s.Params[k])))
 		}
-		obsType, obsParams, obsFields := "<rejected>", []string{}, []string{}
+		var v1rules []string
+		for _, ru := range s.Rules {
+			v1rules = append(v1rules, c38RuleCanonV1(ru))
+		}
+		obsType, obsParams, obsFields, obsRules := "<rejected>", []string{}, []string{}, []string{}
 		if accepted {
 			rules := cfg.GetAllSamplerRules()
 			if ch, ok := rules.Samplers[name]; ok && ch != nil {
 				sc, tn := ch.Sampler()
 				obsType = tn
-				b, _ := yaml.Marshal(sc)
-				var m map[string]any
-				yaml.Unmarshal(b, &m)
-				mk := make([]string, 0, len(m))
-				for k := range m {
-					mk = append(mk, k)
-				}
-				sort.Strings(mk)
-				for _, k := range mk {
-					switch x := m[k].(type) {
-					case int:
-						obsParams = append(obsParams, cq.Pair(cq.Str(k), cq.Z(int64(x))))
-					case string:
-						if d, err := time.ParseDuration(x); err == nil {
-							obsParams = append(obsParams, cq.Pair(cq.Str(k), cq.Z(int64(d))))
-						}
-					case []any:
-						if k == "FieldList" {
-							for _, e := range x {
-								obsFields = append(obsFields, fmt.Sprint(e))
+				if ch.RulesBasedSampler != nil {
+					for _, ru := range ch.RulesBasedSampler.Rules {
+						obsRules = append(obsRules, c38RuleCanonV2(ru))
+					}
+				} else {
+					b, _ := yaml.Marshal(sc)
+					var m map[string]any
+					yaml.Unmarshal(b, &m)
+					mk := make([]string, 0, len(m))
+					for k := range m {
+						mk = append(mk, k)
+					}
+					sort.Strings(mk)
+					for _, k := range mk {
+						switch x := m[k].(type) {
+						case int:
+							obsParams = append(obsParams, cq.Pair(cq.Str(k), cq.Z(int64(x))))
+						case string:
+							if d, err := time.ParseDuration(x); err == nil {
+								obsParams = append(obsParams, cq.Pair(cq.Str(k), cq.Z(int64(d))))
+							}
+						case []any:
+							if k == "FieldList" {
+								for _, e := range x {
+									obsFields = append(obsFields, fmt.Sprint(e))
+								}
 							}
 						}
 					}
@@ -502,9 +913,9 @@ func c38Run(raw json.RawMessage) (Case, error) {
 				obsType = "<absent>"
 			}
 		}
-		sampTerms = append(sampTerms, fmt.Sprintf("{| sm_name := %s; sm_type := %s; sm_params := %s; sm_fields := %s; sm_obs_type := %s; sm_obs_params := %s; sm_obs_fields := %s |}",
-			cq.Str(name), cq.Str(s.Type), cq.List(ps), cq.ListStr(s.Fields), cq.Str(obsType), cq.List(obsParams), cq.ListStr(obsFields)))
-		human = append(human, fmt.Sprintf("sampler %s: v1 %s %v %v -> v2 %s %v %v", name, s.Type, s.Params, s.Fields, obsType, obsParams, obsFields))
+		sampTerms = append(sampTerms, fmt.Sprintf("{| sm_name := %s; sm_type := %s; sm_params := %s; sm_fields := %s; sm_rules := %s; sm_obs_type := %s; sm_obs_params := %s; sm_obs_fields := %s; sm_obs_rules := %s |}",
+			cq.Str(name), cq.Str(s.Type), cq.List(ps), cq.ListStr(s.Fields), cq.ListStr(v1rules), cq.Str(obsType), cq.List(obsParams), cq.ListStr(obsFields), cq.ListStr(obsRules)))
+		human = append(human, fmt.Sprintf("sampler %s: v1 %s %v %v %v -> v2 %s %v %v %v", name, s.Type, s.Params, s.Fields, v1rules, obsType, obsParams, obsFields, obsRules))
 		if s.Type == "" {
 			tags["section-with-only-samplerate"] = true
 		} else {
@@ -557,6 +968,19 @@ func c38Shrink(raw json.RawMessage) []json.RawMessage {
 		c := in
 		c.Samplers = append(append([]c38Sampler{}, in.Samplers[:i]...), in.Samplers[i+1:]...)
 		emit(c)
+	}
+	for i := range in.Samplers {
+		for j := range in.Samplers[i].Rules {
+			if len(in.Samplers[i].Rules) < 2 {
+				continue
+			}
+			c := in
+			c.Samplers = append([]c38Sampler{}, in.Samplers...)
+			sm := in.Samplers[i]
+			sm.Rules = append(append([]c38Rule{}, sm.Rules[:j]...), sm.Rules[j+1:]...)
+			c.Samplers[i] = sm
+			emit(c)
+		}
 	}
 	return out
 }
